@@ -223,21 +223,21 @@ def _polys_with(s, wanted):
 
 
 def _known_edge_meets_edge(s):
-    """polygons_by_polyhedron: an edge of the polygon crosses an edge of the polyhedron, or passes through one of
-    its vertices, exactly (the polygon boundary meets the 1-skeleton of the polyhedron)."""
-    return _polys_with(s, ("pp-edge-crosses-polyhedron-edge", "pp-edge-through-polyhedron-vertex"))
+    """polygons_by_polyhedron: the boundary of the polygon meets the relative interior of a polyhedron edge, or a
+    polyhedron vertex, in a single point: a polygon edge crosses a polyhedron edge, a polygon edge passes through a
+    polyhedron vertex, or a polygon vertex lies on a polyhedron edge (the limiting case of a crossing: moving that
+    vertex to either side gives a passing case / an edge crossing).  In all three the contact point belongs to the
+    two (or more) facets that share the edge."""
+    return _polys_with(s, ("pp-edge-crosses-polyhedron-edge", "pp-edge-through-polyhedron-vertex",
+                           "pp-vertex-on-polyhedron-edge"))
 
 
-def _known_vertex_on_edge_line(s):
-    """polygons_by_polyhedron: a polygon vertex strictly outside the polyhedron lies on two or more facet planes
-    (on the extension of a polyhedron edge)."""
-    return _polys_with(s, ("pp-outside-vertex-on-edge-line",))
-
-
+# The former finding C44-polygons-by-polyhedron-outside-vertex-on-edge-line (outside polygon vertex on the extension of
+# a polyhedron edge) was a consequence of point_in_polyhedron rejecting points in the plane of a distant face; it is
+# repaired by the fix of C31-point-in-polyhedron-face-plane (commit 9add0c76a) and needs no predicate any more.
 KNOWN = {"C44-lines-by-polygon-geometry-collection": _known_geometry_collection,
          "C44-polygons-by-polyhedron-single-vertex-touch": _known_single_vertex_touch,
-         "C44-polygons-by-polyhedron-edge-meets-polyhedron-edge": _known_edge_meets_edge,
-         "C44-polygons-by-polyhedron-outside-vertex-on-edge-line": _known_vertex_on_edge_line}
+         "C44-polygons-by-polyhedron-edge-meets-polyhedron-edge": _known_edge_meets_edge}
 
 
 # ----------------------------------------------------------------------------- check
